@@ -98,6 +98,11 @@ class Hist:
         self.choose_cfg(first=True)
         self.emit("open")
         self.opened = True
+        if self.cfg["iv"] is None and rng.random() < 0.08:
+            # the initial version given through the setter on the open tree instead of the option
+            iv = rng.choice([1, 3, 7])
+            self.emit("setiv %d" % iv)
+            self.iv_pending = iv
 
     # ----- helpers
     def emit(self, s):
